@@ -1,1 +1,436 @@
-fn main() {}
+//! C09 — a generation step atomically replaces the population with as many fresh children.
+//!
+//! A probe child maker (an `Operator<&P>`) appends to a mutex-protected event log with
+//! logical timestamps from one atomic clock: call start / end, worker thread, address and
+//! content fingerprint of the population it was shown, the two random words it drew from
+//! the generator it was handed, the serial of the child it returned or the injected error,
+//! and it injects delays (yield / spin / sleep) at this legitimate suspension point.
+//! An offline checker over log + return value + population before / after decides:
+//!   success => new size = old size = number of calls, the multiset of child serials in the
+//!   new population equals the serials issued (exactly once), every call saw the *old*
+//!   population (same address, same fingerprint), all random words pairwise distinct;
+//!   failure => the error is one of the injected ones (serial: the first in call order, and
+//!   no call after it) and the population equals the snapshot taken before.
+//! Workload: sizes x {serial_next, par_next} x rayon pools of 1..16 threads x failure at
+//! every call index (fault enumeration) x delay modes; `Vec` and `VecDeque` populations.
+//! The same probe workload runs under Miri (tree borrows, many seeds) and ThreadSanitizer.
+
+use std::{
+    collections::{BTreeMap, BTreeSet, VecDeque},
+    sync::{
+        atomic::{AtomicU64, Ordering},
+        Arc, Mutex,
+    },
+};
+
+use ec_core::{
+    generation::Generation,
+    operator::{Composable, Operator},
+};
+use rand::Rng;
+
+#[derive(Clone, Debug, PartialEq, Eq)]
+pub struct Child {
+    serial: u64,
+    w1: u64,
+    w2: u64,
+}
+
+#[derive(Debug, Clone, PartialEq, Eq)]
+pub struct ProbeError {
+    call: u64,
+}
+impl std::fmt::Display for ProbeError {
+    fn fmt(&self, f: &mut std::fmt::Formatter<'_>) -> std::fmt::Result {
+        write!(f, "injected failure at call {}", self.call)
+    }
+}
+impl std::error::Error for ProbeError {}
+
+#[derive(Clone, Debug)]
+enum Ev {
+    Start { t: u64, call: u64, thread: u64, addr: usize, fp: u64, len: usize },
+    End { t: u64, call: u64, thread: u64, result: Result<(u64, u64, u64), u64> },
+}
+
+pub trait PopLike: Send + Sync {
+    fn fp(&self) -> u64;
+    fn n(&self) -> usize;
+    fn serials(&self) -> Vec<u64>;
+    fn children(&self) -> Vec<Child>;
+}
+
+fn fp_of<'a>(it: impl Iterator<Item = &'a Child>) -> u64 {
+    let mut h: u64 = 0xcbf2_9ce4_8422_2325;
+    for c in it {
+        for w in [c.serial, c.w1, c.w2] {
+            h ^= w;
+            h = h.wrapping_mul(0x0000_0100_0000_01b3).rotate_left(13);
+        }
+    }
+    h
+}
+
+impl PopLike for Vec<Child> {
+    fn fp(&self) -> u64 {
+        fp_of(self.iter())
+    }
+    fn n(&self) -> usize {
+        self.len()
+    }
+    fn serials(&self) -> Vec<u64> {
+        self.iter().map(|c| c.serial).collect()
+    }
+    fn children(&self) -> Vec<Child> {
+        self.clone()
+    }
+}
+
+impl PopLike for VecDeque<Child> {
+    fn fp(&self) -> u64 {
+        fp_of(self.iter())
+    }
+    fn n(&self) -> usize {
+        self.len()
+    }
+    fn serials(&self) -> Vec<u64> {
+        self.iter().map(|c| c.serial).collect()
+    }
+    fn children(&self) -> Vec<Child> {
+        self.iter().cloned().collect()
+    }
+}
+
+static NEXT_TID: AtomicU64 = AtomicU64::new(1);
+thread_local! {
+    static TID: u64 = NEXT_TID.fetch_add(1, Ordering::Relaxed);
+}
+
+/// The child maker handed to `Generation`; the driver keeps a second handle to the shared
+/// state so that it can script failures and read the event log.
+#[derive(Composable, Clone)]
+pub struct Probe(Arc<Shared>);
+
+impl std::ops::Deref for Probe {
+    type Target = Shared;
+    fn deref(&self) -> &Shared {
+        &self.0
+    }
+}
+
+pub struct Shared {
+    log: Mutex<Vec<Ev>>,
+    clock: AtomicU64,
+    calls: AtomicU64,
+    serials: AtomicU64,
+    fail_at: Mutex<BTreeSet<u64>>,
+    delay_mode: u8,
+    delay_seed: u64,
+}
+
+fn mix(a: u64, b: u64) -> u64 {
+    let mut z = a ^ b.wrapping_mul(0x9e37_79b9_7f4a_7c15).rotate_left(17);
+    z = (z ^ (z >> 30)).wrapping_mul(0xbf58_476d_1ce4_e5b9);
+    z = (z ^ (z >> 27)).wrapping_mul(0x94d0_49bb_1331_11eb);
+    z ^ (z >> 31)
+}
+
+impl Probe {
+    fn new(first_serial: u64, delay_mode: u8, delay_seed: u64) -> Self {
+        Self(Arc::new(Shared {
+            log: Mutex::new(Vec::new()),
+            clock: AtomicU64::new(0),
+            calls: AtomicU64::new(0),
+            serials: AtomicU64::new(first_serial),
+            fail_at: Mutex::new(BTreeSet::new()),
+            delay_mode,
+            delay_seed,
+        }))
+    }
+}
+
+impl Shared {
+
+    fn delay(&self, call: u64, phase: u64) {
+        let h = mix(self.delay_seed, mix(call, phase));
+        match self.delay_mode {
+            0 => {}
+            1 => std::thread::yield_now(),
+            2 => {
+                for _ in 0..(h % 2_000) {
+                    std::hint::spin_loop();
+                }
+            }
+            _ => std::thread::sleep(std::time::Duration::from_micros(h % 200)),
+        }
+    }
+
+    fn reset_step(&self, fail_at: BTreeSet<u64>) {
+        self.log.lock().unwrap().clear();
+        self.calls.store(0, Ordering::SeqCst);
+        *self.fail_at.lock().unwrap() = fail_at;
+    }
+}
+
+impl<'a, P: PopLike> Operator<&'a P> for Probe {
+    type Output = Child;
+    type Error = ProbeError;
+
+    fn apply<R: Rng + ?Sized>(&self, pop: &'a P, rng: &mut R) -> Result<Child, ProbeError> {
+        let call = self.calls.fetch_add(1, Ordering::SeqCst);
+        let thread = TID.with(|t| *t);
+        let addr = std::ptr::from_ref(pop) as *const u8 as usize;
+        {
+            let t = self.clock.fetch_add(1, Ordering::SeqCst);
+            self.log.lock().unwrap().push(Ev::Start { t, call, thread, addr, fp: pop.fp(), len: pop.n() });
+        }
+        self.delay(call, 0);
+        let w1 = rng.next_u64();
+        self.delay(call, 1);
+        let w2 = rng.next_u64();
+        let fail = self.fail_at.lock().unwrap().contains(&call);
+        // the population must still be what it was when the call started
+        let fp_end = pop.fp();
+        let result = if fail {
+            Err(ProbeError { call })
+        } else {
+            Ok(Child { serial: self.serials.fetch_add(1, Ordering::SeqCst), w1, w2 })
+        };
+        self.delay(call, 2);
+        {
+            let t = self.clock.fetch_add(1, Ordering::SeqCst);
+            let mut log = self.log.lock().unwrap();
+            log.push(Ev::End { t, call, thread, result: result.as_ref().map(|c| (c.serial, w1 ^ fp_end.wrapping_sub(fp_end), w2)).map_err(|e| e.call) });
+            if fp_end != pop.fp() {
+                // unreachable in safe code without interior mutability; kept as a tripwire
+                log.push(Ev::End { t, call: u64::MAX, thread, result: Err(u64::MAX) });
+            }
+        }
+        result
+    }
+}
+
+#[derive(Debug, Default)]
+struct StepStats {
+    signature: u64,
+    workers: BTreeSet<u64>,
+    max_overlap: usize,
+}
+
+type Finding = (String, String);
+
+/// The offline checker.
+#[allow(clippy::too_many_arguments)]
+fn check_step(
+    parallel: bool,
+    before: &[Child],
+    before_addr: usize,
+    before_fp: u64,
+    result: &Result<(), ProbeError>,
+    after: &[Child],
+    log: &[Ev],
+    injected: &BTreeSet<u64>,
+    first_serial: u64,
+    next_serial: u64,
+) -> (Vec<Finding>, StepStats) {
+    let mut f: Vec<Finding> = Vec::new();
+    let mut stats = StepStats::default();
+    let mode = if parallel { "par_next" } else { "serial_next" };
+    let n = before.len();
+    let mut starts: BTreeMap<u64, (u64, u64)> = BTreeMap::new(); // call -> (t, thread)
+    let mut ends: BTreeMap<u64, (u64, Result<(u64, u64, u64), u64>)> = BTreeMap::new();
+    let mut order: Vec<(u64, u64, bool)> = Vec::new(); // (t, thread, is_start)
+    for ev in log {
+        match ev {
+            Ev::Start { t, call, thread, addr, fp, len } => {
+                starts.insert(*call, (*t, *thread));
+                order.push((*t, *thread, true));
+                stats.workers.insert(*thread);
+                if *addr != before_addr || *fp != before_fp || *len != n {
+                    f.push((format!("C09/{mode}/child-built-from-other-population"), format!("call {call} saw population at {addr:#x} (fingerprint {fp:#x}, size {len}); the previous population is at {before_addr:#x} (fingerprint {before_fp:#x}, size {n})")));
+                }
+            }
+            Ev::End { t, call, thread, result } => {
+                if *call == u64::MAX {
+                    f.push((format!("C09/{mode}/population-modified-during-call"), "the population changed while a child was being built".into()));
+                    continue;
+                }
+                ends.insert(*call, (*t, result.clone()));
+                order.push((*t, *thread, false));
+            }
+        }
+    }
+    order.sort_unstable();
+    // interleaving signature: the start/end order by worker (workers renumbered by first appearance)
+    let mut rename: BTreeMap<u64, u64> = BTreeMap::new();
+    let mut sig = 0u64;
+    let mut open = 0usize;
+    for (_, th, is_start) in &order {
+        let k = rename.len() as u64;
+        let id = *rename.entry(*th).or_insert(k);
+        sig = mix(sig, id * 2 + u64::from(*is_start));
+        if *is_start {
+            open += 1;
+            stats.max_overlap = stats.max_overlap.max(open);
+        } else {
+            open = open.saturating_sub(1);
+        }
+    }
+    stats.signature = sig;
+    let calls = starts.len();
+    let ok_children: Vec<(u64, u64, u64)> = ends.values().filter_map(|(_, r)| r.clone().ok()).collect();
+    let errors: Vec<u64> = ends.values().filter_map(|(_, r)| r.clone().err()).collect();
+    // live randomness: all words drawn in this step pairwise distinct
+    let mut words = BTreeSet::new();
+    for (_, w1, w2) in &ok_children {
+        if !words.insert(*w1) || !words.insert(*w2) {
+            f.push((format!("C09/{mode}/random-words-repeat"), format!("two children share a random word ({w1:#x} / {w2:#x}): children are correlated copies of one draw")));
+            break;
+        }
+    }
+    match result {
+        Ok(()) => {
+            if !errors.is_empty() {
+                f.push((format!("C09/{mode}/error-swallowed"), format!("child creation failed at calls {errors:?} but the step reported success")));
+            }
+            if after.len() != n {
+                f.push((format!("C09/{mode}/population-size-changed"), format!("population had {n} individuals, the next generation has {}", after.len())));
+            }
+            if calls != n {
+                f.push((format!("C09/{mode}/call-count"), format!("{calls} children were requested for a population of {n}")));
+            }
+            // exactly-once: the multiset of serials in the new population = serials issued
+            let mut got: Vec<u64> = after.iter().map(|c| c.serial).collect();
+            got.sort_unstable();
+            let mut issued: Vec<u64> = ok_children.iter().map(|c| c.0).collect();
+            issued.sort_unstable();
+            if got != issued {
+                let lost: Vec<&u64> = issued.iter().filter(|s| !got.contains(s)).take(5).collect();
+                let foreign: Vec<&u64> = got.iter().filter(|s| !issued.contains(s)).take(5).collect();
+                let dup = got.windows(2).any(|w| w[0] == w[1]);
+                f.push((format!("C09/{mode}/children-lost-duplicated-or-foreign"), format!("new population serials != serials issued this step: lost {lost:?}, foreign {foreign:?}, duplicates {dup}")));
+            }
+            if issued.iter().any(|s| *s < first_serial || *s >= next_serial) {
+                f.push((format!("C09/{mode}/serial-range"), "a child serial outside this step's range".into()));
+            }
+            // each child in the new population carries the words its call drew
+            let by_serial: BTreeMap<u64, (u64, u64)> = ok_children.iter().map(|c| (c.0, (c.1, c.2))).collect();
+            for c in after {
+                if let Some((w1, w2)) = by_serial.get(&c.serial) {
+                    if (c.w1, c.w2) != (*w1, *w2) {
+                        f.push((format!("C09/{mode}/child-altered"), format!("child {} in the new population does not carry the random words its call drew", c.serial)));
+                        break;
+                    }
+                }
+            }
+        }
+        Err(e) => {
+            if !injected.contains(&e.call) {
+                f.push((format!("C09/{mode}/unknown-error"), format!("the step failed with {e} which was not injected (injected: {injected:?})")));
+            }
+            if after != before {
+                f.push((format!("C09/{mode}/population-changed-after-failure"), format!("the step failed but the population changed: before {} individuals (first serials {:?}), after {} (first serials {:?})", before.len(), before.iter().take(4).map(|c| c.serial).collect::<Vec<_>>(), after.len(), after.iter().take(4).map(|c| c.serial).collect::<Vec<_>>())));
+            }
+            if !parallel {
+                // serial: the first injected failure in call order, and nothing after it
+                let first = injected.iter().next().copied();
+                if Some(e.call) != first {
+                    f.push((format!("C09/{mode}/not-first-error"), format!("serial stepping returned the error of call {} but the first failing call is {first:?}", e.call)));
+                }
+                if calls as u64 != e.call + 1 {
+                    f.push((format!("C09/{mode}/calls-after-failure"), format!("{calls} calls were made although call {} failed", e.call)));
+                }
+            }
+        }
+    }
+    if injected.iter().any(|k| (*k as usize) < n) && result.is_ok() && !parallel {
+        f.push((format!("C09/{mode}/error-swallowed"), "an injected failure inside the call range did not fail the step".into()));
+    }
+    if parallel && result.is_ok() && injected.iter().any(|k| (*k as usize) < n) {
+        f.push((format!("C09/{mode}/error-swallowed"), "an injected failure inside the call range did not fail the step".into()));
+    }
+    (f, stats)
+}
+
+#[derive(Clone, Debug)]
+pub struct Cfg {
+    pub size: usize,
+    pub parallel: bool,
+    pub pool: usize,
+    pub deque: bool,
+    pub delay_mode: u8,
+    pub fail: BTreeSet<u64>,
+    pub steps: usize,
+}
+
+#[derive(Debug, Default)]
+pub struct CfgOutcome {
+    pub findings: Vec<Finding>,
+    pub steps_run: usize,
+    pub calls: u64,
+    pub signatures: BTreeSet<u64>,
+    pub workers: BTreeSet<u64>,
+    pub max_overlap: usize,
+}
+
+fn initial(size: usize, first: u64) -> Vec<Child> {
+    (0..size as u64).map(|i| Child { serial: first + i, w1: mix(first, i), w2: mix(i, first) }).collect()
+}
+
+pub fn run_cfg(cfg: &Cfg, seed: u64) -> CfgOutcome {
+    let mut out = CfgOutcome::default();
+    let probe = Probe::new(1_000_000, cfg.delay_mode, seed);
+    let body = |out: &mut CfgOutcome| {
+        if cfg.deque {
+            let pop: VecDeque<Child> = initial(cfg.size, 0).into_iter().collect();
+            drive_ref(pop, cfg, probe.clone(), out);
+        } else {
+            drive_ref(initial(cfg.size, 0), cfg, probe.clone(), out);
+        }
+    };
+    if cfg.parallel {
+        match rayon::ThreadPoolBuilder::new().num_threads(cfg.pool).build() {
+            Ok(pool) => pool.install(|| body(&mut out)),
+            Err(e) => out.findings.push(("HARNESS/pool".into(), format!("cannot build rayon pool: {e}"))),
+        }
+    } else {
+        body(&mut out);
+    }
+    out
+}
+
+fn drive_ref<P>(pop: P, cfg: &Cfg, probe: Probe, out: &mut CfgOutcome)
+where
+    P: PopLike + ec_core::population::Population<Individual = Child> + FromIterator<Child> + rayon::iter::FromParallelIterator<Child>,
+{
+    let mut generation: Generation<P, Probe> = Generation::new(probe.clone(), pop);
+    for step in 0..cfg.steps {
+        let injected: BTreeSet<u64> = if step == 0 { cfg.fail.clone() } else { BTreeSet::new() };
+        let before = generation.population().children();
+        let before_addr = std::ptr::from_ref(generation.population()) as *const u8 as usize;
+        let before_fp = generation.population().fp();
+        probe.reset_step(injected.clone());
+        let first_serial = probe.serials.load(Ordering::SeqCst);
+        let result = if cfg.parallel { generation.par_next() } else { generation.serial_next() };
+        let after = generation.population().children();
+        let log = probe.log.lock().unwrap().clone();
+        let next_serial = probe.serials.load(Ordering::SeqCst);
+        let (f, st) = check_step(cfg.parallel, &before, before_addr, before_fp, &result, &after, &log, &injected, first_serial, next_serial);
+        out.findings.extend(f);
+        out.steps_run += 1;
+        out.calls += log.iter().filter(|e| matches!(e, Ev::Start { .. })).count() as u64;
+        out.signatures.insert(st.signature);
+        out.workers.extend(st.workers);
+        out.max_overlap = out.max_overlap.max(st.max_overlap);
+    }
+}
+
+mod native;
+
+fn main() {
+    let first = std::env::args().nth(1).unwrap_or_default();
+    if first == "--sanitizer-child" {
+        std::process::exit(native::sanitizer_child());
+    }
+    std::process::exit(native::main());
+}
